@@ -51,7 +51,7 @@ NA = {
         "deciding C16 (DESIGN section 4, C16)",
 }
 
-READY = {"C01", "C02", "C03", "C04", "C05", "C06", "C07", "C08", "C09", "C10", "C11", "C12", "C13", "C15", "C17", "C18", "C20"}
+READY = {"C01", "C02", "C03", "C04", "C05", "C06", "C07", "C08", "C09", "C10", "C11", "C12", "C13", "C14", "C15", "C17", "C18", "C19", "C20"}
 
 def main():
     checks, na = [], []
